@@ -13,7 +13,8 @@ Driver for the C08 correspondence.  One request per line, 16 space-separated fie
 * pkgDir, outdir   encoded strings (`Proto`: code points joined by `.`, `-` = empty)
 * gs      `always|never|as-needed|only`;  omit, gnt  `0|1`
 * ext, stem   `!` (option absent) or an encoded string
-* templates, supportTemplates   `!` (option absent) or a list of `name~path`
+* templates, supportTemplates   `!` (option absent) or a list of `name~path` (`name~path~L`: reachable only through a
+          symbolic link to a directory)
 * entries  list of `isNs~comps~stem~src~candidates~deps`; comps/candidates/deps are `+`-lists of encoded strings
 * every list: `,`-separated (`+` inside an entry), `!` = empty list (`@` = a present but empty directory)
 
@@ -40,7 +41,8 @@ def parseGs (s : String) : Option GenSupport :=
 
 def parseTemplateFile (s : String) : Option TemplateFile :=
   match splitOnChar s '~' with
-  | [n, p] => do pure ⟨← decS n, ← decS p⟩
+  | [n, p] => do pure ⟨← decS n, ← decS p, false⟩
+  | [n, p, "L"] => do pure ⟨← decS n, ← decS p, true⟩
   | _ => none
 
 def parseEntry (s : String) : Option Entry :=
